@@ -257,46 +257,50 @@ func (r *Replica) ambient(stage string, b *Block, k int) {
 	if !r.Ambient || r.Panicked {
 		return
 	}
-	// the mempool's other content: checked when it arrives (any moment) and re-checked after every commit
-	if n := len(b.Pool); n > 0 {
-		switch stage {
-		case "before-begin":
-			r.CheckTx(b.Pool[int(b.Height)%n])
-		case "after-end":
-			for _, tx := range b.Pool {
-				r.CheckTx(tx)
-				if r.Panicked {
-					return
-				}
+	// the mempool's other content: each transaction is checked once when it arrives (before the block, while it
+	// executes, or between EndBlock and Commit) and re-checked after the commit
+	for i, tx := range b.Pool {
+		arrives := []string{"before-begin", "before-end", "after-end"}[(b.Height+int64(i))%3]
+		if stage == arrives || stage == "after-commit" {
+			r.CheckTx(tx)
+			if r.Panicked {
+				return
 			}
-		case "after-commit":
-			for _, tx := range b.Pool {
-				r.CheckTx(tx)
-				if r.Panicked {
-					return
-				}
-			}
-		case "before-end":
-			r.CheckTx(b.Pool[(int(b.Height)+1)%n])
 		}
 	}
 	if len(b.Txs) == 0 || r.Panicked {
 		return
 	}
+	// each transaction of the block is checked at most once before it is delivered, as the mempool does: before the
+	// block (it was in this node's mempool when the block was proposed), while the block executes (gossip brings it
+	// late), or never; which one is a function of height and position only
+	when := func(i int) int64 { return (b.Height + int64(i)) % 3 }
 	switch stage {
 	case "before-begin":
-		for _, tx := range b.Txs {
+		for i, tx := range b.Txs {
+			if when(i) != 0 {
+				continue
+			}
 			r.CheckTx(tx)
 			if r.Panicked {
 				return
 			}
 		}
 	case "between":
-		if k+1 < len(b.Txs) {
+		if k+1 < len(b.Txs) && when(k+1) == 1 {
 			r.CheckTx(b.Txs[k+1])
 		}
-	case "before-end":
-		r.CheckTx(b.Txs[(int(b.Height)+k)%len(b.Txs)])
+	case "after-commit":
+		// the mempool re-checks what it still holds after every commit; transactions of the block that this node had
+		// checked are removed first, the ones it never saw may still arrive (and are refused as already executed)
+		for i, tx := range b.Txs {
+			if when(i) == 2 && i%2 == 0 {
+				r.CheckTx(tx)
+				if r.Panicked {
+					return
+				}
+			}
+		}
 	}
 }
 
